@@ -8,32 +8,35 @@ use std::sync::Arc;
 
 #[tokio::main]
 async fn main() {
-    // legacy: empty string in nullable LargeUtf8
-    for (ver, name) in [(LanceFileVersion::Legacy, "legacy"), (LanceFileVersion::V2_0, "2.0")] {
-        let schema = Arc::new(Schema::new(vec![
-            Field::new("id", DataType::Int64, false),
-            Field::new("s", DataType::LargeUtf8, true),
-            Field::new("u", DataType::Utf8, true),
-            Field::new("i", DataType::Int64, true),
-        ]));
-        let b = RecordBatch::try_new(
-            schema.clone(),
-            vec![
-                Arc::new(Int64Array::from(vec![0, 1, 2, 3])),
-                Arc::new(LargeStringArray::from(vec![Some("a"), Some(""), Some("b"), Some("")])),
-                Arc::new(StringArray::from(vec![Some("a"), Some(""), None, Some("")])),
-                Arc::new(Int64Array::from(vec![None, Some(0), None, Some(5)])),
-            ],
-        )
-        .unwrap();
-        let r = RecordBatchIterator::new(vec![Ok(b)], schema.clone());
-        let ds = Dataset::write(r, &format!("memory://probe_{name}"), Some(WriteParams { data_storage_version: Some(ver), ..Default::default() })).await.unwrap();
-        for bs in [None, Some(1usize)] {
+    let schema = Arc::new(Schema::new(vec![
+        Field::new("id", DataType::Int64, false),
+        Field::new("s", DataType::Utf8, true),
+    ]));
+    let vals: Vec<Option<&str>> = (0..296).map(|i| if i % 16 == 0 { Some("é") } else if i % 16 == 5 { Some("zz") } else { None }).collect();
+    let b = RecordBatch::try_new(
+        schema.clone(),
+        vec![Arc::new(Int64Array::from((0..296).collect::<Vec<i64>>())), Arc::new(StringArray::from(vals))],
+    )
+    .unwrap();
+    let r = RecordBatchIterator::new(vec![Ok(b)], schema.clone());
+    let ds = Dataset::write(r, "memory://probe_l", Some(WriteParams { data_storage_version: Some(LanceFileVersion::Legacy), max_rows_per_group: 8, ..Default::default() })).await.unwrap();
+    {
+        let out: Vec<RecordBatch> = ds.scan().try_into_stream().await.unwrap().try_collect().await.unwrap();
+        let mut nn = vec![];
+        for b in &out { let ids = b.column(0).as_any().downcast_ref::<Int64Array>().unwrap(); let s = b.column(1).as_any().downcast_ref::<StringArray>().unwrap(); for i in 0..b.num_rows() { if !s.is_null(i) { nn.push((ids.value(i), s.value(i).to_string())); } } }
+        println!("full scan non-null: {} {:?}", nn.len(), &nn[..nn.len().min(12)]);
+    }
+    for f in ["s = 'é'", "s IN ('é')", "s > 'a'", "s IS NULL", "s IS NOT NULL"] {
+        for stats in [true, false] {
             let mut s = ds.scan();
-            if let Some(x) = bs { s.batch_size(x); }
+            s.filter(f).unwrap();
+            s.use_stats(stats);
             let out: Vec<RecordBatch> = s.try_into_stream().await.unwrap().try_collect().await.unwrap();
-            println!("--- {name} bs={bs:?}");
-            println!("{}", arrow::util::pretty::pretty_format_batches(&out).unwrap());
+            let ids: Vec<i64> = out.iter().flat_map(|b| b.column(0).as_any().downcast_ref::<Int64Array>().unwrap().values().to_vec()).collect();
+            println!("{f:20} stats={stats}: {} rows {:?}", ids.len(), &ids[..ids.len().min(20)]);
         }
+        let mut s = ds.scan();
+        s.filter(f).unwrap();
+        println!("{}", s.explain_plan(false).await.unwrap());
     }
 }
